@@ -160,11 +160,18 @@ let rec int_of_nat (n : nat) : int = match n with O -> 0 | S m -> 1 + int_of_nat
 
 let fail_opt (i : int) : nat option = if i < 0 then None else Some (nat_of_int i)
 
-(* split "a ## b" *)
+(* split "obs ## flag1 ## flag2": returns obs and the flag segments *)
+let split_flags_all (obs : string) : string * string list =
+  match Str.split_delim (Str.regexp_string " ## ") obs with
+  | a :: fl -> (a, fl)
+  | [] -> (obs, [])
 let split_flags (obs : string) : string * string =
-  match Str.bounded_split_delim (Str.regexp_string " ## ") obs 2 with
-  | [ a; b ] -> (a, b)
-  | _ -> (obs, "")
+  let a, fl = split_flags_all obs in
+  (a, String.concat " ## " fl)
+let find_flag (key : string) (fl : string list) : string option =
+  List.fold_left (fun acc f -> match acc with Some _ -> acc | None ->
+      if String.length f > String.length key && String.sub f 0 (String.length key + 1) = key ^ " "
+      then Some (String.sub f (String.length key + 1) (String.length f - String.length key - 1)) else None) None fl
 
 (* split a token list at the first occurrence of a marker token *)
 let rec split_at (m : string) (ts : string list) : string list * string list =
@@ -219,41 +226,342 @@ let lru_case (input : string) (_obs : string) : verdict =
   | [] -> failwith "lru: empty input"
 
 
-(* ---- CBOR encoder ---- *)
-let cborenc_case (input : string) (obs : string) : verdict =
-  match Str.bounded_split_delim (Str.regexp_string "|") input 2 with
-  | [ f; toks ] ->
-      let failat = int_of_string (String.trim f) in
-      let evs = events_of_toks (words toks) in
+
+(* ---- formats ---- *)
+type fmt = {
+  fname : string;
+  (* encoder model: (cfg, failat, events) -> chunks, failing index, stack depth *)
+  enc : int -> int -> event list -> z list list * int option * int;
+  (* expected canonical value of a tree after a trip through the format (img) *)
+  img : int -> tree -> cvalue option;   (* None: the encoder must refuse this tree *)
+  decode : z list -> ref_result;
+  decode_stream : z list -> int -> [ `Values of cvalue list | `Unsupported | `Truncated of cvalue list | `Malformed | `Stop ];
+  parse : string -> int -> z list list -> string;  (* mode vfail chunks -> "EV ... R ..." *)
+  dec : string -> int -> (z list * z) list -> string;
+  cprop : string;   (* conformance property of the parser *)
+  idle : string;
+  equiv : cvalue -> cvalue -> bool;   (* expected (img) vs decoded value *)
+  extref : bool;    (* the reference decoder runs on the Go side (## REF tokens) *)
+}
+
+let res_obs (r : ((event list * z) * 'a) res) : string =
+  match r with
+  | Ok ((evs, err), _) -> Printf.sprintf "EV %s R %s" (toks_of_events evs)
+                            (let i = int_of_z err in if i = -1 then "ok" else if i = 99 then "inj" else if i = 8 then "eof" else "err")
+  | Panic _ -> "PANIC"
+  | OutOfFuel -> "HANG"
+  | Err _ -> "MODELERR"
+
+let verdict_of_err (e : z) : string =
+  let i = int_of_z e in
+  if i = -1 then "ok" else if i = 99 then "inj" else if i = 8 then "eof" else "err"
+
+let generic_stream (decode : z list -> ref_result) (sep_ok : z list -> z list) (doc : z list) (fuel : int) =
+  let rec walk b acc n =
+    let b = sep_ok b in
+    if b = [] then `Values (List.rev acc)
+    else if n = 0 then `Stop
+    else match decode b with
+      | RValue (v, rest) -> walk rest (v :: acc) (n - 1)
+      | RUnsupported -> `Unsupported
+      | RTruncated -> `Truncated (List.rev acc)
+      | RMalformed -> `Malformed
+  in
+  walk doc [] fuel
+
+(* decoder model loop shared by formats: next : state -> (state', events, err) res *)
+let dec_loop (next : 'd -> (('d * event list) * z) res) (d0 : 'd) (nexts : int) : string =
+  let b = Buffer.create 256 in
+  let rec go d i =
+    if i < nexts then begin
+      match next d with
+      | Ok ((d', evs), err) ->
+          Buffer.add_string b (Printf.sprintf "EV %s R %s ; " (toks_of_events evs) (verdict_of_err err));
+          if int_of_z err = -1 then go d' (i + 1)
+      | Panic _ -> Buffer.add_string b "EV . R PANIC ; "
+      | OutOfFuel -> Buffer.add_string b "EV . R HANG ; "
+      | Err _ -> Buffer.add_string b "EV . R MODELERR ; "
+    end
+  in
+  go d0 0;
+  String.trim (Buffer.contents b)
+
+let script_total script = List.fold_left (fun a (b, _) -> a + List.length b) 0 script
+
+(* CBOR *)
+let cbor_fmt : fmt = {
+  fname = "cbor";
+  enc = (fun _cfg failat evs ->
       let e, idx = cbor_run (cenc0 (fail_opt failat)) evs O in
+      (w_chunks e.ce_w, (match idx with None -> None | Some i -> Some (int_of_nat i)), List.length e.ce_len.ls_stack));
+  img = (fun _ t -> Some (cv (value_of t)));
+  decode = cbor_decode;
+  decode_stream = (fun doc fuel -> generic_stream cbor_decode (fun b -> b) doc fuel);
+  parse = (fun mode vfail chunks ->
+      let r =
+        if mode = "P" || mode = "S" then run_parse (fail_opt vfail) (List.concat chunks)
+        else if mode = "R" then run_chunks (fail_opt vfail) (List.filter (fun c -> c <> []) chunks)
+        else run_chunks (fail_opt vfail) chunks in
+      res_obs (match r with Ok x -> Ok (x, ()) | Panic w -> Panic w | OutOfFuel -> OutOfFuel | Err e -> Err e));
+  dec = (fun kind nexts script ->
+      let d0 =
+        if kind = "B" then { d_p = cparser0; d_buf = List.concat (List.map fst script); d_script = []; d_bytesdec = true }
+        else { d_p = cparser0; d_buf = []; d_script = script; d_bytesdec = false } in
+      let fuel = nat_of_int (2 * script_total script + List.length script + 8) in
+      dec_loop (fun d -> match dec_next fuel d (sink0 None) with
+          | Ok ((d', s), err) -> Ok ((d', s_log s), err)
+          | Panic w -> Panic w | OutOfFuel -> OutOfFuel | Err e -> Err e) d0 nexts);
+  cprop = "C05";
+  idle = "0 0 0";
+  equiv = cvalue_eqb;
+  extref = false;
+}
+
+(* UBJSON: expected value after encoding (img): uint64 above MaxInt64 become decimal
+   strings; in a typed uint array/map that needs 'H' every element does *)
+let maxint64 = z_of_string "9223372036854775807"
+let zgt a b = ZA.gt (zt_of_z a) (zt_of_z b)
+let dec_str (n : z) : cvalue = CStr (List.map (fun c -> z_of_int (Char.code c)) (List.of_seq (String.to_seq (string_of_z n))))
+
+let rec ubj_img_value (v : value) : cvalue =
+  match v with
+  | VNum ((KUint16 | KUint32 | KUint64 | KUint), n) when zgt n maxint64 -> dec_str n
+  | VArr vs -> CArr (List.map ubj_img_value vs)
+  | VObj kvs -> CObj (List.map (fun (k, x) -> (k, ubj_img_value x)) kvs)
+  | _ -> cv v
+
+let is_uint_bt bt = (bt = BUint16 || bt = BUint32 || bt = BUint64 || bt = BUint)
+let needs_h es = List.exists (fun s -> match s with SNum (_, n) -> zgt n maxint64 | _ -> false) es
+let scalar_h s = match s with SNum (_, n) -> dec_str n | _ -> CNil
+
+let rec ubj_img (t : tree) : cvalue =
+  match t with
+  | TVal (s, _) -> ubj_img_value (scalar_value s)
+  | TArr (_, _, es) -> CArr (List.map ubj_img es)
+  | TObj (_, _, ms) -> CObj (List.map (fun ((k, _), e) -> (k, ubj_img e)) ms)
+  | TXArr (bt, es) when is_uint_bt bt && needs_h es -> CArr (List.map scalar_h es)
+  | TXArr (_, es) -> CArr (List.map (fun s -> cv (scalar_value s)) es)
+  | TXObj (bt, ms) when is_uint_bt bt && needs_h (List.map snd ms) -> CObj (List.map (fun (k, s) -> (k, scalar_h s)) ms)
+  | TXObj (_, ms) -> CObj (List.map (fun (k, s) -> (k, cv (scalar_value s))) ms)
+
+let ubj_obs3 (r : (((event list * z) * uparser)) res) : string =
+  match r with
+  | Ok ((evs, err), _) -> Printf.sprintf "EV %s R %s" (toks_of_events evs) (verdict_of_err err)
+  | Panic _ -> "PANIC" | OutOfFuel -> "HANG" | Err _ -> "MODELERR"
+
+let skip_noops (b : z list) : z list =
+  let rec go b = match b with x :: r when int_of_z x = 78 -> go r | _ -> b in
+  go b
+
+let ubj_fmt : fmt = {
+  fname = "ubj";
+  enc = (fun _cfg failat evs ->
+      let e, idx = ubj_run (uenc0 (fail_opt failat)) evs O in
+      (w_chunks e.ue_w, (match idx with None -> None | Some i -> Some (int_of_nat i)), List.length e.ue_len.ls_stack));
+  img = (fun _ t -> Some (ubj_img t));
+  decode = ubj_decode;
+  decode_stream = (fun doc fuel -> generic_stream ubj_decode skip_noops doc fuel);
+  parse = (fun mode vfail chunks ->
+      let r =
+        if mode = "P" || mode = "S" then urun_parse (fail_opt vfail) (List.concat chunks)
+        else if mode = "R" then urun_chunks (fail_opt vfail) (List.filter (fun c -> c <> []) chunks)
+        else urun_chunks (fail_opt vfail) chunks in
+      ubj_obs3 r);
+  dec = (fun kind nexts script ->
+      let d0 =
+        if kind = "B" then { ud_p = uparser0; ud_buf = List.concat (List.map fst script); ud_script = []; ud_bytesdec = true }
+        else { ud_p = uparser0; ud_buf = []; ud_script = script; ud_bytesdec = false } in
+      let fuel = nat_of_int (2 * script_total script + List.length script + 8) in
+      dec_loop (fun d -> match udec_next fuel d (sink0 None) with
+          | Ok ((d', s), err) -> Ok ((d', s_log s), err)
+          | Panic w -> Panic w | OutOfFuel -> OutOfFuel | Err e -> Err e) d0 nexts);
+  cprop = "C06";
+  idle = "0 0 0";
+  equiv = cvalue_eqb;
+  extref = false;
+}
+
+
+(* ---- JSON ---- *)
+exception Unknown_float
+
+let string_of_bytes (l : z list) : string =
+  let b = Buffer.create 16 in
+  List.iter (fun x -> Buffer.add_char b (Char.chr (int_of_z x land 255))) l; Buffer.contents b
+
+let dec_float_re = Str.regexp "^[+-]?\\([0-9]+\\.?[0-9]*\\|\\.[0-9]+\\)\\([eE][+-]?[0-9]+\\)?$"
+
+(* strconv.ParseFloat oracle for the model: decimal literals only; anything else is not decided here *)
+let parse_float_oracle (tok : z list) : z option =
+  let s = string_of_bytes tok in
+  if Str.string_match dec_float_re s 0 then begin
+    let f = float_of_string s in
+    if Float.is_integer f && false then None
+    else if Float.abs f = Float.infinity then None
+    else Some (z_of_zt (ZA.extract (ZA.of_int64 (Int64.bits_of_float f)) 0 64))
+  end
+  else begin
+    (* clearly malformed literals are errors; hex floats and other exotic forms are not decided *)
+    let has c = String.contains s c in
+    if has 'x' || has 'X' || has 'p' || has 'P' || has '_' || has 'n' || has 'N' || has 'i' || has 'I' then raise Unknown_float
+    else None
+  end
+
+let float_table (seg : string) : (z -> z -> z list) =
+  let tab = Hashtbl.create 16 in
+  List.iter (fun t -> if t <> "." then
+      match String.split_on_char '=' t with
+      | [ k; v ] -> Hashtbl.replace tab k (bytes_of_hex v)
+      | _ -> ()) (words seg);
+  fun w bits -> match Hashtbl.find_opt tab (string_of_z w ^ ":" ^ string_of_z bits) with Some t -> t | None -> raise Unknown_float
+
+let jcfg_of_int (c : int) : jcfg =
+  { escape_html = c land 1 <> 0; ignore_invalid = c land 2 <> 0; explicit_radix = c land 4 <> 0 }
+
+let current_ftab : (z -> z -> z list) ref = ref (fun _ _ -> raise Unknown_float)
+
+let float_of_bits64 (b : z) : float = Int64.float_of_bits (ZA.to_int64 (ZA.signed_extract (zt_of_z b) 0 64))
+let float_of_bits32 (b : z) : float = Int32.float_of_bits (ZA.to_int32 (ZA.signed_extract (zt_of_z b) 0 32))
+let bits32_of_float (f : float) : ZA.t = ZA.extract (ZA.of_int32 (Int32.bits_of_float f)) 0 32
+
+(* numeric equivalence through JSON text: expected (from the stream) vs decoded *)
+let json_num_equiv (want : cnum) (got : cnum) : bool =
+  match want, got with
+  | CInt a, CInt b -> ZA.equal (zt_of_z a) (zt_of_z b)
+  | CF64 a, CF64 b -> ZA.equal (zt_of_z a) (zt_of_z b)
+  | CF64 a, CInt b -> let f = float_of_bits64 a in Float.is_integer f && ZA.equal (ZA.of_float f) (zt_of_z b)
+  | CF32 a, CInt b -> let f = float_of_bits32 a in Float.is_integer f && ZA.equal (ZA.of_float f) (zt_of_z b)
+  | CF32 a, CF64 b -> ZA.equal (bits32_of_float (float_of_bits64 b)) (zt_of_z a)
+  | _, _ -> false
+
+let rec json_equiv (want : cvalue) (got : cvalue) : bool =
+  match want, got with
+  | CNum a, CNum b -> json_num_equiv a b
+  | CArr xs, CArr ys -> List.length xs = List.length ys && List.for_all2 json_equiv xs ys
+  | CObj xs, CObj ys -> List.length xs = List.length ys && List.for_all2 (fun (k1, x) (k2, y) -> k1 = k2 && json_equiv x y) xs ys
+  | _, _ -> cvalue_eqb want got
+
+let is_nonfinite_scalar s = match s with
+  | SNum (KFloat32, b) -> int_of_z (nonfinite_b (z_of_int 32) b) = 1
+  | SNum (KFloat64, b) -> int_of_z (nonfinite_b (z_of_int 64) b) = 1
+  | _ -> false
+
+exception Refuse
+(* img: strings sanitized, non-finite floats null (ignore) or refused *)
+let json_img (cfg : int) (t : tree) : cvalue option =
+  let ignore_inv = cfg land 2 <> 0 in
+  let sc s = if is_nonfinite_scalar s then (if ignore_inv then CNil else raise Refuse)
+    else match s with SStr b -> CStr (sanitize b) | _ -> cv (scalar_value s) in
+  let rec go t = match t with
+    | TVal (s, _) -> sc s
+    | TArr (_, _, es) -> CArr (List.map go es)
+    | TObj (_, _, ms) -> CObj (List.map (fun ((k, _), e) -> (sanitize k, go e)) ms)
+    | TXArr (_, es) -> CArr (List.map sc es)
+    | TXObj (_, ms) -> CObj (List.map (fun (k, s) -> (sanitize k, sc s)) ms) in
+  try Some (go t) with Refuse -> None
+
+let json_obs3 (r : (((event list * z) * jparser)) res) : string =
+  match r with
+  | Ok ((evs, err), _) -> Printf.sprintf "EV %s R %s" (toks_of_events evs) (verdict_of_err err)
+  | Panic _ -> "PANIC" | OutOfFuel -> "HANG" | Err _ -> "MODELERR"
+
+let json_fmt : fmt = {
+  fname = "json";
+  enc = (fun cfg failat evs ->
+      match json_run (jcfg_of_int cfg) !current_ftab (jenc0 (fail_opt failat)) evs O with
+      | JRun (e, fail) ->
+          (w_chunks e.je_w,
+           (match fail with None -> None | Some (i, cls) -> Some (if int_of_z cls = 99 then int_of_nat i else - (int_of_nat i) - 1)),
+           List.length e.je_first.bs_stack)
+      | JRunPanic -> ([ [ z_of_int 255 ] ], Some (-1000), -1));
+  img = json_img;
+  decode = (fun _ -> RMalformed);
+  decode_stream = (fun _ _ -> `Stop);
+  parse = (fun mode vfail chunks ->
+      let r =
+        if mode = "P" || mode = "S" then jrun_parse parse_float_oracle (fail_opt vfail) (List.concat chunks)
+        else if mode = "R" then jrun_chunks parse_float_oracle (fail_opt vfail) (List.filter (fun c -> c <> []) chunks)
+        else jrun_chunks parse_float_oracle (fail_opt vfail) chunks in
+      json_obs3 r);
+  dec = (fun kind nexts script ->
+      let d0 =
+        if kind = "B" then { jd_p = jparser0; jd_buf = List.concat (List.map fst script); jd_script = []; jd_bytesdec = true }
+        else { jd_p = jparser0; jd_buf = []; jd_script = script; jd_bytesdec = false } in
+      let fuel = nat_of_int (2 * script_total script + List.length script + 8) in
+      dec_loop (fun d -> match jdec_next fuel parse_float_oracle d (sink0 None) with
+          | Ok ((d', s), err) -> Ok ((d', s_log s), err)
+          | Panic w -> Panic w | OutOfFuel -> OutOfFuel | Err e -> Err e) d0 nexts);
+  cprop = "C04";
+  idle = "0 1 ";   (* the literal buffer may keep the digits of a number that ended the input; Parse resets it *)
+  equiv = json_equiv;
+  extref = true;
+}
+
+(* values described by "## REF" tokens (joined with '_') *)
+let ref_values (r : string) : [ `Values of cvalue list | `Err | `Range | `Skip ] =
+  if r = "ERR" then `Err
+  else if r = "RANGE" then `Range
+  else if r = "BADUTF8" || r = "ADJ" then `Skip
+  else if r = "EMPTY" then `Values []
+  else
+    let evs = events_of_toks (String.split_on_char '_' r) in
+    match take_trees evs 64 with
+    | Some trees -> `Values (List.map (fun t -> cv (value_of t)) trees)
+    | None -> `Skip
+
+(* ---- encoder cases ---- *)
+let enc_case (f : fmt) (input : string) (obs : string) : verdict =
+  let obs, flags = split_flags_all obs in
+  match Str.split_delim (Str.regexp_string "|") input with
+  | h :: toks :: tabseg ->
+      let cfg, failat = match words h with [ c; fa ] -> (int_of_string c, int_of_string fa) | _ -> failwith "enc header" in
+      let evs = events_of_toks (words toks) in
+      (match tabseg with t :: _ -> current_ftab := float_table t | [] -> ());
+      let chunks, idx, depth = f.enc cfg failat evs in
       let model =
-        Printf.sprintf "W %s E %s D %d" (toks_of_chunks (w_chunks e.ce_w))
-          (match idx with None -> "-" | Some i -> string_of_int (int_of_nat i))
-          (List.length e.ce_len.ls_stack)
-      in
+        if idx = Some (-1000) then "PANIC" else
+        Printf.sprintf "W %s E %s D %d" (toks_of_chunks chunks)
+          (match idx with None -> "-" | Some i -> if i >= 0 then string_of_int i else string_of_int (- i - 1) ^ "!") depth in
       let oracle = ref [] in
-      (* direct oracles on the implementation's output *)
       (match words obs with
       | "W" :: rest ->
-          let chunks, rest' = split_at "E" rest in
+          let ichunks, rest' = split_at "E" rest in
           let eidx = match rest' with x :: _ -> x | [] -> "?" in
-          let out = List.concat (chunks_of_toks chunks) in
+          let idepth = match rest' with _ :: "D" :: d :: _ -> d | _ -> "?" in
+          let out = List.concat (chunks_of_toks ichunks) in
           if failat < 0 then begin
-            (* C07: an independent decoder reads back the value of the stream *)
             match take_trees evs 64 with
             | Some trees when List.for_all wf_tree trees ->
-                if eidx <> "-" then oracle := ("C07", "encoder refused a well-formed stream at event " ^ eidx) :: !oracle
-                else begin
-                  let want = List.map (fun t -> cv (value_of t)) trees in
-                  match cbor_decode_all (nat_of_int (List.length trees + 1)) out with
-                  | Some got when List.length got = List.length want && List.for_all2 cvalue_eqb got want -> ()
-                  | _ -> oracle := ("C07", "reference decoder does not read back the stream's value from " ^ hex_of_bytes out) :: !oracle
+                let wants = List.map (f.img cfg) trees in
+                if List.exists (fun w -> w = None) wants then begin
+                  (* the stream holds something the format must refuse (JSON: non-finite float) *)
+                  if eidx = "-" then oracle := ("C07", "encoder accepted a value it must refuse") :: !oracle
+                end else begin
+                  if eidx <> "-" then oracle := ("C07", "encoder refused a well-formed stream at event " ^ eidx) :: !oracle
+                  else begin
+                    let want = List.map (function Some w -> w | None -> CNil) wants in
+                    let decoded =
+                      if f.extref then (match find_flag "REF" flags with Some r -> (match ref_values r with `Values v -> `Values v | `Skip -> `Skip | _ -> `Bad) | None -> `Skip)
+                      else (match f.decode_stream out (List.length trees + 1) with `Values v -> `Values v | _ -> `Bad) in
+                    (match decoded with
+                     | `Values got when List.length got = List.length want && List.for_all2 f.equiv want got -> ()
+                     | `Skip -> ()
+                     | _ -> oracle := ("C07", "reference decoder does not read back the stream's value from " ^ hex_of_bytes out) :: !oracle);
+                    if f.fname = "json" then begin
+                      (* C07 text predicates *)
+                      if not (utf8_valid out) then oracle := ("C07", "output is not valid UTF-8") :: !oracle;
+                      if List.exists (fun b -> int_of_z b < 32) out then oracle := ("C07", "raw control character in output") :: !oracle;
+                      if cfg land 1 <> 0 && List.exists (fun b -> let c = int_of_z b in c = 60 || c = 62 || c = 38) out then
+                        oracle := ("C07", "raw <, > or & with HTML escaping on") :: !oracle
+                    end;
+                    (* C17: stacks idle after complete documents *)
+                    if idepth <> "0" then oracle := ("C17", "encoder length stack not idle after complete documents: " ^ idepth) :: !oracle
+                  end
                 end
             | _ -> ()
           end
           else begin
-            (* C16: a failing writer must surface as the injected error no later than the last event *)
-            let nwrites = List.length chunks in
+            let nwrites = List.length (chunks_of_toks ichunks) in
             if nwrites > failat then begin
               if eidx = "-" then oracle := ("C16", "write #" ^ string_of_int failat ^ " failed but every call returned nil") :: !oracle
               else if String.contains eidx '!' then oracle := ("C16", "returned error is not the writer's error") :: !oracle
@@ -262,80 +570,94 @@ let cborenc_case (input : string) (obs : string) : verdict =
       | [ "PANIC" ] | [ "HANG" ] -> oracle := ("C07", "encoder crashed: " ^ obs) :: !oracle
       | _ -> ());
       { model; oracle = !oracle }
-  | _ -> failwith "cborenc: bad input"
+  | _ -> failwith "enc: bad input"
 
-(* ---- CBOR parser ---- *)
-let verdict_of_err (e : z) : string =
-  let i = int_of_z e in
-  if i = -1 then "ok" else if i = 99 then "inj" else if i = 8 then "eof" else "err"
+let enc_case f input obs = try enc_case f input obs with Unknown_float -> { model = fst (split_flags obs); oracle = [] }
 
-let cbor_obs (r : (event list * z) res) : string =
-  match r with
-  | Ok (evs, err) -> Printf.sprintf "EV %s R %s" (toks_of_events evs) (verdict_of_err err)
-  | Panic _ -> "PANIC"
-  | OutOfFuel -> "HANG"
-  | Err _ -> "MODELERR"
-
-(* verdict comparison for the binary parsers: the model's PANIC/HANG must match the
-   implementation's; events are compared literally *)
-let cbor_ref_oracle (doc : z list) (evs : event list) (verdict : string) : (string * string) list =
+(* ---- parser cases ---- *)
+let ref_oracle (f : fmt) (doc : z list) (evs : event list) (verdict : string) : (string * string) list =
   let o = ref [] in
-  (if verdict = "PANIC" || verdict = "HANG" then o := ("C03", "parser " ^ verdict) :: !o);
-  (* walk the stream with the reference decoder *)
-  let rec walk b acc n =
-    if b = [] then `Values (List.rev acc)
-    else if n = 0 then `Stop
-    else match cbor_decode b with
-      | RValue (v, rest) -> walk rest (v :: acc) (n - 1)
-      | RUnsupported -> `Unsupported
-      | RTruncated -> `Truncated
-      | RMalformed -> `Malformed
-  in
-  (match walk doc [] 64 with
+  let dochex = let h = hex_of_bytes doc in if String.length h > 160 then String.sub h 0 160 else h in
+  (if verdict = "PANIC" || verdict = "HANG" then o := ("C03", "parser " ^ verdict ^ " doc=" ^ dochex) :: !o);
+  let trees_ok () = match take_trees evs 64 with
+    | Some trees -> if List.for_all wf_tree trees then `Ok trees else `Ill
+    | None -> `Unbalanced in
+  (match f.decode_stream doc 64 with
   | `Values want ->
-      if verdict <> "ok" then o := ("C05", "well-formed supported item refused: " ^ verdict) :: !o
+      if verdict <> "ok" then o := (f.cprop, "valid document refused: " ^ verdict) :: !o
       else begin
-        match take_trees evs 64 with
-        | Some trees ->
+        match trees_ok () with
+        | `Ok trees ->
             let got = List.map (fun t -> cv (value_of t)) trees in
             if not (List.length got = List.length want && List.for_all2 cvalue_eqb got want) then
-              o := ("C05", "reported value differs from the RFC 7049 value") :: !o;
-            if not (List.for_all wf_tree trees) then o := ("C09", "accepted input produced an ill-formed event stream") :: !o
-        | None -> o := ("C09", "accepted input produced an unbalanced event stream") :: !o
+              o := (f.cprop, "reported value differs from the reference decoder's value") :: !o
+        | `Ill ->
+            o := ("C09", "accepted input produced an ill-formed event stream") :: !o;
+            (match take_trees evs 64 with
+             | Some trees ->
+                 let got = List.map (fun t -> cv (value_of t)) trees in
+                 if not (List.length got = List.length want && List.for_all2 cvalue_eqb got want) then
+                   o := (f.cprop, "reported value differs from the reference decoder's value") :: !o
+             | None -> ())
+        | `Unbalanced -> o := ("C09", "accepted input produced an unbalanced event stream") :: !o
       end
-  | `Unsupported -> if verdict = "ok" then o := ("C05", "item outside the subset accepted") :: !o
-  | `Truncated -> if verdict = "ok" then o := ("C03", "input ending inside a value accepted") :: !o
+  | `Unsupported -> if verdict = "ok" then o := (f.cprop, "item outside the supported subset accepted") :: !o
+  | `Truncated _ -> if verdict = "ok" then o := ("C03", "input ending inside a value accepted") :: !o
   | `Malformed ->
       if verdict = "ok" then begin
-        match take_trees evs 64 with
-        | Some trees when List.for_all wf_tree trees -> ()
-        | _ -> o := ("C09", "accepted input produced an ill-formed event stream") :: !o
+        match trees_ok () with `Ok _ -> () | _ -> o := ("C09", "accepted input produced an ill-formed event stream") :: !o
       end
   | `Stop -> ());
   !o
 
-let cborparse_case (input : string) (obs0 : string) : verdict =
-  let obs, flags = split_flags obs0 in
+let ext_ref_oracle (f : fmt) (r : string) (evs : event list) (verdict : string) : (string * string) list =
+  let o = ref [] in
+  (if verdict = "PANIC" || verdict = "HANG" then o := ("C03", "parser " ^ verdict) :: !o);
+  let trees = take_trees evs 64 in
+  (match ref_values r with
+   | `Values want ->
+       if verdict <> "ok" then o := (f.cprop, "valid document refused: " ^ verdict) :: !o
+       else begin
+         match trees with
+         | Some ts ->
+             let got = List.map (fun t -> cv (value_of t)) ts in
+             if not (List.length got = List.length want && List.for_all2 cvalue_eqb want got) then
+               o := (f.cprop, "reported value differs from the reference decoder's value") :: !o;
+             if not (List.for_all wf_tree ts) then o := ("C09", "accepted input produced an ill-formed event stream") :: !o
+         | None -> o := ("C09", "accepted input produced an unbalanced event stream") :: !o
+       end
+   | `Err | `Range | `Skip ->
+       if verdict = "ok" then begin
+         match trees with
+         | Some ts when List.for_all wf_tree ts -> ()
+         | _ -> o := ("C09", "accepted input produced an ill-formed event stream") :: !o
+       end);
+  !o
+
+let parse_case (f : fmt) (input : string) (obs0 : string) : verdict =
+  let obs, flagl = split_flags_all obs0 in
+  let flags = match List.filter (fun x -> starts_with x "C02 ") flagl with x :: _ -> x | [] -> "" in
   match words input with
   | mode :: vfail :: chunks ->
       let vfail = int_of_string vfail in
       let chunks = chunks_of_toks chunks in
-      let r =
-        if mode = "P" || mode = "S" then run_parse (fail_opt vfail) (List.concat chunks)
-        else if mode = "R" then run_chunks (fail_opt vfail) (List.filter (fun c -> c <> []) chunks)
-        else run_chunks (fail_opt vfail) chunks
-      in
-      let model = cbor_obs r in
+      let model = f.parse mode vfail chunks in
       let oracle = ref [] in
       let impl = strip_depth obs in
+      let depth = match Str.bounded_split_delim (Str.regexp_string " D ") obs 2 with [ _; d ] -> Some d | _ -> None in
       (match words impl with
       | "EV" :: rest ->
           let toks, rest' = split_at "R" rest in
           let verdict = match rest' with v :: _ -> v | [] -> "?" in
           let evs = events_of_toks toks in
-          if vfail < 0 then oracle := cbor_ref_oracle (List.concat chunks) evs verdict
-          else begin
-            (* C16: visitor error at call #vfail is returned unchanged, no further event *)
+          if vfail < 0 then begin
+            oracle := (if f.extref then (match find_flag "REF" flagl with Some r -> ext_ref_oracle f r evs verdict | None -> [])
+                       else ref_oracle f (List.concat chunks) evs verdict);
+            (match depth with
+             | Some d when verdict = "ok" && mode <> "R" && not (starts_with d f.idle) ->
+                 oracle := ("C17", "parser stacks not idle after complete documents: " ^ d) :: !oracle
+             | _ -> ())
+          end else begin
             let n = List.length evs in
             if n > vfail then begin
               if n <> vfail + 1 then oracle := ("C16", "events delivered after the visitor failed") :: !oracle;
@@ -345,16 +667,12 @@ let cborparse_case (input : string) (obs0 : string) : verdict =
       | _ -> oracle := [ ("C03", "parser crashed: " ^ impl) ]);
       (if flags <> "" then
          match words flags with p :: m -> oracle := (p, "chunked run differs from whole-buffer run: " ^ String.concat " " m) :: !oracle | [] -> ());
-      (* the depth part of the observation is checked by C17 only through the oracle below *)
-      (match Str.bounded_split_delim (Str.regexp_string " D ") obs 2 with
-      | [ _; d ] ->
-          let okrun = (match words impl with "EV" :: rest -> (match snd (split_at "R" rest) with "ok" :: _ -> true | _ -> false) | _ -> false) in
-          if okrun && mode <> "R" && d <> "0 0 0" then oracle := ("C17", "stacks not idle after a complete document: " ^ d) :: !oracle
-      | _ -> ());
-      { model = (match Str.bounded_split_delim (Str.regexp_string " D ") obs 2 with [ _; d ] -> model ^ " D " ^ d | _ -> model); oracle = !oracle }
-  | _ -> failwith "cborparse: bad input"
+      { model = (match depth with Some d -> model ^ " D " ^ d | None -> model); oracle = !oracle }
+  | _ -> failwith "parse: bad input"
 
-(* ---- CBOR decoder ---- *)
+let parse_case f input obs = try parse_case f input obs with Unknown_float -> { model = fst (split_flags obs); oracle = [] }
+
+(* ---- decoder cases ---- *)
 let script_of_toks ts =
   List.map
     (fun t ->
@@ -363,41 +681,26 @@ let script_of_toks ts =
       else (bytes_of_hex t, Z0))
     (List.filter (fun t -> t <> ".") ts)
 
-let cbordec_case (input : string) (obs : string) : verdict =
+let dec_case (f : fmt) (input : string) (obs0 : string) : verdict =
+  let obs, flagl = split_flags_all obs0 in
   match words input with
   | kind :: _bufsize :: nexts :: script ->
       let nexts = int_of_string nexts in
       let script = script_of_toks script in
-      let d0 =
-        if kind = "B" then { d_p = cparser0; d_buf = List.concat (List.map fst script); d_script = []; d_bytesdec = true }
-        else { d_p = cparser0; d_buf = []; d_script = script; d_bytesdec = false }
-      in
-      let total = List.fold_left (fun a (b, _) -> a + List.length b) 0 script in
-      let b = Buffer.create 256 in
-      let rec go d i =
-        if i < nexts then begin
-          match dec_next (nat_of_int (2 * total + List.length script + 8)) d (sink0 None) with
-          | Ok ((d', s), err) ->
-              Buffer.add_string b (Printf.sprintf "EV %s R %s ; " (toks_of_events (s_log s)) (verdict_of_err err));
-              if int_of_z err = -1 then go d' (i + 1)
-          | Panic _ -> Buffer.add_string b "EV . R PANIC ; "
-          | OutOfFuel -> Buffer.add_string b "EV . R HANG ; "
-          | Err _ -> Buffer.add_string b "EV . R MODELERR ; "
-        end
-      in
-      go d0 0;
-      let model = String.trim (Buffer.contents b) in
-      (* C18 oracle: k complete items => k successful Next with exactly one value each, then eof;
-         a stream ending inside an item => an error that is not eof *)
+      let model = f.dec kind nexts script in
       let doc = List.concat (List.map fst script) in
       let oracle = ref [] in
-      let rec walk b acc = if b = [] then `Values (List.rev acc) else match cbor_decode b with
-        | RValue (v, rest) -> walk rest (v :: acc) | RTruncated -> `Truncated (List.rev acc) | _ -> `Other in
       let calls = List.filter (fun s -> String.trim s <> "") (Str.split (Str.regexp_string " ; ") (obs ^ " ")) in
       let parse_call c = match words c with "EV" :: rest -> let toks, r = split_at "R" rest in (events_of_toks toks, (match r with v :: _ -> v | [] -> "?")) | _ -> ([], "?") in
       let calls = List.map parse_call calls in
-      (if List.exists (fun (_, v) -> v = "PANIC" || v = "HANG") calls then oracle := ("C03", "decoder crashed or hung") :: !oracle);
-      (match walk doc [] with
+      (if List.exists (fun (_, v) -> v = "PANIC" || v = "HANG") calls then
+         oracle := ("C03", "decoder crashed or hung doc=" ^ (let h = hex_of_bytes doc in if String.length h > 160 then String.sub h 0 160 else h)) :: !oracle);
+      let stream =
+        if f.extref then (match find_flag "REF" flagl with
+            | Some r -> (match ref_values r with `Values v -> `Values v | _ -> `Other)
+            | None -> `Other)
+        else (match f.decode_stream doc 64 with `Values v -> `Values v | `Truncated x -> `Truncated x | _ -> `Other) in
+      (match stream with
       | `Values want ->
           let k = List.length want in
           if nexts > k then begin
@@ -412,14 +715,24 @@ let cbordec_case (input : string) (obs : string) : verdict =
           end
       | `Truncated _ ->
           (match List.rev calls with
-           | (_, v) :: _ when v = "eof" || v = "ok" -> if List.length calls <= nexts && v = "eof" then oracle := ("C18", "stream ending inside a value reported as clean io.EOF") :: !oracle
+           | (_, "eof") :: _ -> oracle := ("C18", "stream ending inside a value reported as clean io.EOF") :: !oracle
            | _ -> ())
-      | `Other -> ());
+      | _ -> ());
       { model; oracle = !oracle }
-  | _ -> failwith "cbordec: bad input"
+  | _ -> failwith "dec: bad input"
 
-let handlers : (string * (string -> string -> verdict)) list =
-  [ ("lru", lru_case); ("cborenc", cborenc_case); ("cborparse", cborparse_case); ("cbordec", cbordec_case) ]
+let dec_case f input obs = try dec_case f input obs with Unknown_float -> { model = fst (split_flags obs); oracle = [] }
+
+let fmts = [ cbor_fmt; ubj_fmt; json_fmt ]
+let fmt_handlers =
+  List.concat_map (fun f -> [ (f.fname ^ "enc", enc_case f); (f.fname ^ "parse", parse_case f); (f.fname ^ "dec", dec_case f) ]) fmts
+
+let contains s sub = try ignore (Str.search_forward (Str.regexp_string sub) s 0); true with Not_found -> false
+(* a crash or hang is compared as such: what was delivered before is not part of the observation *)
+let canon_obs (o : string) : string =
+  if contains o "HANG" then "HANG" else if contains o "PANIC" then "PANIC" else o
+
+let handlers : (string * (string -> string -> verdict)) list = ("lru", lru_case) :: fmt_handlers
 
 
 let () =
@@ -436,7 +749,7 @@ let () =
               match h input obs with
               | v ->
                   let ok = ref true in
-                  if v.model <> fst (split_flags obs) then begin
+                  if canon_obs v.model <> canon_obs (fst (split_flags obs)) then begin
                     ok := false;
                     Printf.printf "CORR %d %s model=%s\n" !lineno kind v.model
                   end;
